@@ -13,6 +13,7 @@ package main
 
 import (
 	"go/token"
+	"go/types"
 	"sort"
 	"strings"
 
@@ -421,3 +422,109 @@ func c09ValEq(a, b ssa.Value) bool {
 }
 
 var _ = token.NoPos
+
+// ---------- unexported state by role ----------
+
+// c09RoleOverride: field names found semantically by a rule (e.g. the string
+// field of oci.Store that holds the path of index.json), keyed "<type>.<role>".
+var c09RoleOverride = map[string]string{}
+
+// c09FieldRole maps a role of unexported state to the field that plays it in
+// the current tree.  The role names are the field names of the pinned tree; a
+// field of that name wins, otherwise the field is identified by its type (the
+// map[string]Descriptor of the resolver, the digest -> set map, the
+// *graph.Memory of the store, its RWMutex, …).  Unresolvable: the role itself
+// (the caller then reports a lost anchor).
+func c09FieldRole(named *types.Named, role string) string {
+	st, ok := named.Underlying().(*types.Struct)
+	if !ok {
+		return role
+	}
+	tname := named.Obj().Name()
+	if pk := named.Obj().Pkg(); pk != nil {
+		tname = pk.Name() + "." + tname
+	}
+	if n, ok := c09RoleOverride[tname+"."+role]; ok {
+		return n
+	}
+	for i := 0; i < st.NumFields(); i++ {
+		if st.Field(i).Name() == role {
+			return role
+		}
+	}
+	isNamed := func(t types.Type, pkg, name string) bool {
+		if p, ok := t.(*types.Pointer); ok {
+			t = p.Elem()
+		}
+		n, ok := t.(*types.Named)
+		return ok && n.Obj().Name() == name && n.Obj().Pkg() != nil && n.Obj().Pkg().Name() == pkg
+	}
+	var pred func(t types.Type) bool
+	hint := ""
+	switch tname + "." + role {
+	case "resolver.Memory.index":
+		pred = func(t types.Type) bool {
+			m, ok := t.Underlying().(*types.Map)
+			return ok && isNamed(m.Elem(), "v1", "Descriptor")
+		}
+	case "resolver.Memory.tags":
+		pred = func(t types.Type) bool {
+			m, ok := t.Underlying().(*types.Map)
+			return ok && c09IsSetType(m.Elem())
+		}
+	case "oci.Store.tagResolver", "oci.ReadOnlyStore.tagResolver":
+		pred = func(t types.Type) bool {
+			_, isPtr := t.(*types.Pointer)
+			return isPtr && isNamed(t, "resolver", "Memory")
+		}
+	case "oci.Store.graph", "oci.ReadOnlyStore.graph":
+		pred = func(t types.Type) bool { _, isPtr := t.(*types.Pointer); return isPtr && isNamed(t, "graph", "Memory") }
+	case "oci.Store.index":
+		pred = func(t types.Type) bool { _, isPtr := t.(*types.Pointer); return isPtr && isNamed(t, "v1", "Index") }
+	case "oci.Store.storage":
+		pred = func(t types.Type) bool { _, isPtr := t.(*types.Pointer); return isPtr && isNamed(t, "oci", "Storage") }
+	case "oci.Store.sync":
+		pred = func(t types.Type) bool { return isNamed(t, "sync", "RWMutex") }
+	case "oci.Store.indexPath":
+		pred = func(t types.Type) bool { b, ok := t.(*types.Basic); return ok && b.Kind() == types.String }
+		hint = "index"
+	case "oci.Store.root":
+		pred = func(t types.Type) bool { b, ok := t.(*types.Basic); return ok && b.Kind() == types.String }
+		hint = "root"
+	case "graph.Memory.nodes":
+		pred = func(t types.Type) bool {
+			m, ok := t.Underlying().(*types.Map)
+			return ok && isNamed(m.Elem(), "v1", "Descriptor")
+		}
+	case "graph.Memory.predecessors":
+		pred = func(t types.Type) bool {
+			m, ok := t.Underlying().(*types.Map)
+			return ok && c09IsSetType(m.Elem())
+		}
+		hint = "pred"
+	}
+	if pred == nil {
+		return role
+	}
+	var cands []string
+	for i := 0; i < st.NumFields(); i++ {
+		if pred(st.Field(i).Type()) {
+			cands = append(cands, st.Field(i).Name())
+		}
+	}
+	if len(cands) == 1 {
+		return cands[0]
+	}
+	if hint != "" {
+		var hinted []string
+		for _, n := range cands {
+			if strings.Contains(strings.ToLower(n), hint) {
+				hinted = append(hinted, n)
+			}
+		}
+		if len(hinted) == 1 {
+			return hinted[0]
+		}
+	}
+	return role
+}
